@@ -38,7 +38,13 @@ pub fn builtin_make_array(sz: BoundedI32<0, { i32::MAX }>, func: FuncVal) -> Res
 #[builtin]
 pub fn builtin_repeat(what: Either![IStr, ArrValue], count: usize) -> Result<Val> {
 	Ok(match what {
-		Either2::A(s) => Val::string(s.repeat(count)),
+		Either2::A(s) => {
+			// str::repeat panics when the length of the result exceeds the maximal allocation
+			if s.len().checked_mul(count).map_or(true, |len| len > isize::MAX as usize) {
+				bail!("repeated length overflow")
+			}
+			Val::string(s.repeat(count))
+		}
 		Either2::B(arr) => Val::Arr(
 			ArrValue::repeated(arr, count)
 				.ok_or_else(|| runtime_error!("repeated length overflow"))?,
